@@ -317,8 +317,28 @@ Proof.
     apply Z.leb_gt. destruct (2 <? Z.log2 p / 8 + 1) eqn:E2; [lia | apply Z.ltb_ge in E2; lia].
 Qed.
 
-Lemma sev_ev : forall c e, no_size e = true -> sev c e = to_opt (ev c e).
-Proof. intros. unfold sev, ev. symmetry. apply expr_sem_except_known. assumption. Qed.
+Lemma bytes_cnt_le4' : forall v, 0 <= v -> (bytes_cnt v <=? 4) = (v <? 4294967296).
+Proof.
+  intros v Hv. destruct (Z.eq_dec v 0) as [E|E]; [subst; reflexivity | apply bytes_cnt_le4; lia].
+Qed.
+Lemma bytes_cnt_le8 : forall v, 0 <= v -> (bytes_cnt v <=? 8) = (v <? 18446744073709551616).
+Proof.
+  intros v Hv. destruct (Z.eq_dec v 0) as [E|E]; [subst; reflexivity|]. assert (Hp : 0 < v) by lia.
+  unfold bytes_cnt. replace (v =? 0) with false by (symmetry; apply Z.eqb_neq; lia).
+  destruct (v <? 18446744073709551616) eqn:E1.
+  - apply Z.ltb_lt in E1. assert (L : 0 <= Z.log2 v < 64).
+    { split; [apply Z.log2_nonneg | apply Z.log2_lt_pow2; [lia | simpl; lia]]. }
+    apply Z.leb_le. destruct (2 <? Z.log2 v / 8 + 1) eqn:E2; lia.
+  - apply Z.ltb_ge in E1. assert (L : 64 <= Z.log2 v) by (apply Z.log2_le_pow2; [lia | simpl; lia]).
+    apply Z.leb_gt. destruct (2 <? Z.log2 v / 8 + 1) eqn:E2; [lia | apply Z.ltb_ge in E2; lia].
+Qed.
+
+Lemma sev_ev : forall c e, sev c e = to_opt (ev c e).
+Proof. intros. unfold sev, ev. symmetry. apply expr_sem. Qed.
+Lemma legacy_empty : lookup_legacy "" legacy_mem = None.
+Proof. reflexivity. Qed.
+Lemma swap32_0 : swap32 0 = 0.
+Proof. reflexivity. Qed.
 
 Arguments lookup_legacy : simpl never.
 Arguments mem_flags : simpl never.
@@ -333,17 +353,13 @@ Arguments bytes_cnt : simpl never.
 Arguments is_ext_mem : simpl never.
 Arguments Z.land : simpl never.
 Arguments Z.shiftl : simpl never.
+Arguments Z.shiftr : simpl never.
 Arguments Z.modulo : simpl never.
 Arguments align_zeros : simpl never.
+Arguments swap32 : simpl never.
+Arguments be_dec : simpl never.
+Arguments le_enc : simpl never.
 
-Ltac split_hyps :=
-  repeat match goal with
-         | H : _ && _ = true |- _ => apply andb_true_iff in H; destruct H
-         end.
-Ltac use_sev c :=
-  repeat match goal with
-         | H : no_size ?e = true |- _ => rewrite (sev_ev c e H) in *; revert H
-         end; intros.
 Ltac destruct_evs :=
   repeat match goal with
          | |- context [ev ?c ?e] => let v := fresh "v" in let k := fresh "k" in destruct (ev c e) as [v|k]
@@ -353,8 +369,12 @@ Ltac zsubst :=
          | H : (?v =? ?w) = true |- _ => apply Z.eqb_eq in H; subst
          | H : negb (?v =? ?w) = false |- _ => apply negb_false_iff in H; apply Z.eqb_eq in H; subst
          end.
+Ltac use_names :=
+  repeat match goal with
+         | H : String.eqb ?s "" = false |- context [String.eqb ?s ""] => rewrite H
+         end.
 Ltac crunch :=
-  repeat (simpl;
+  repeat (simpl; use_names;
     match goal with
     | |- context [match lookup_legacy ?s ?l with _ => _ end] => destruct (lookup_legacy s l) as [[?|]|]
     | |- context [if ?b then _ else _] => destruct b eqn:?; zsubst
@@ -377,57 +397,64 @@ Ltac boolfin :=
 Lemma mem_flags_0 : mem_flags 0 = 0.
 Proof. reflexivity. Qed.
 Ltac fin := crunch; try rewrite mem_flags_0; try reflexivity; boolfin.
+(* a memory option written as a name: the empty name is not syntax (both sides have no command for it) *)
+Ltac names :=
+  repeat match goal with
+         | |- context [String.eqb ?s ""] =>
+             let E := fresh "Ename" in destruct (String.eqb s "") eqn:E; [apply String.eqb_eq in E; subst; rewrite ?legacy_empty | ]
+         end.
 Ltac prep c :=
-  unfold stmt_spec, spec_mem, spec_target, spec_arg; use_sev c;
-  unfold compile_impl, stmt_dict, d_load, d_memopt, d_target, d_callarg, d_ldata; destruct_evs; simpl; try reflexivity.
+  unfold stmt_spec, spec_mem, spec_target, spec_arg, spec_data; repeat rewrite sev_ev;
+  unfold compile_impl, stmt_dict, d_load, d_memopt, d_target, d_callarg, d_ldata; names; destruct_evs; simpl; try reflexivity.
 Ltac run_helper :=
   unfold helper; simpl; unfold run_handler; simpl;
   unfold h_erase, h_enable, h_jump, h_call, h_version, h_keystore, h_fill, h_load, h_prog, h_keywrap, h_encrypt,
-         dint, opt_mem_id, get_mem_id, cmd_load, cmd_prog, guard, truthy.
+         dint, opt_mem_id, get_mem_id, cmd_load, cmd_prog, guard, truthy; use_names.
 
-
-Lemma st_erase : forall c fs kbs o t, sclean (SErase o t) = true ->
+Lemma st_erase : forall c fs kbs o t,
    to_opt (compile_impl c fs kbs (SErase o t)) = stmt_spec c fs kbs (SErase o t).
 Proof.
-  intros c fs kbs o t Hs. simpl in Hs. destruct o as [|s|e]; destruct t as [e1|e1 e2]; simpl in Hs; split_hyps.
+  intros c fs kbs o t. destruct o as [|s|e]; destruct t as [e1|e1 e2].
   all: prep c.
-  all: run_helper; crunch.
+  all: run_helper; fin.
 Qed.
-Lemma st_erase_all : forall c fs kbs o, sclean (SEraseAll o) = true ->
+Lemma st_erase_all : forall c fs kbs o,
    to_opt (compile_impl c fs kbs (SEraseAll o)) = stmt_spec c fs kbs (SEraseAll o).
 Proof.
-  intros c fs kbs o Hs. simpl in Hs. destruct o as [|s|e]; simpl in Hs; split_hyps.
+  intros c fs kbs o. destruct o as [|s|e].
   all: prep c.
-  all: run_helper; crunch.
+  all: run_helper; fin.
 Qed.
-Lemma st_enable : forall c fs kbs o e, sclean (SEnable o e) = true ->
+Lemma st_enable : forall c fs kbs o e,
    to_opt (compile_impl c fs kbs (SEnable o e)) = stmt_spec c fs kbs (SEnable o e).
 Proof.
-  intros c fs kbs o e0 Hs. simpl in Hs. destruct o as [|s|e]; simpl in Hs; split_hyps.
+  intros c fs kbs o e0. destruct o as [|s|e].
   all: prep c.
-  all: run_helper; crunch.
+  all: run_helper; fin.
 Qed.
-Lemma st_jump : forall c fs kbs t a, sclean (SCall true t a) = true ->
-   to_opt (compile_impl c fs kbs (SCall true t a)) = stmt_spec c fs kbs (SCall true t a).
+Lemma st_call : forall c fs kbs j t a,
+   to_opt (compile_impl c fs kbs (SCall j t a)) = stmt_spec c fs kbs (SCall j t a).
 Proof.
-  intros c fs kbs t a Hs. simpl in Hs. destruct a as [| |e]; simpl in Hs; split_hyps.
+  intros c fs kbs j t a. destruct j; destruct a as [| |e].
   all: prep c.
-  all: run_helper; crunch.
+  all: run_helper; fin.
 Qed.
-Lemma st_jump_sp : forall c fs kbs sp t a, sclean (SJumpSp sp t a) = true ->
+Lemma st_jump_sp : forall c fs kbs sp t a,
    to_opt (compile_impl c fs kbs (SJumpSp sp t a)) = stmt_spec c fs kbs (SJumpSp sp t a).
 Proof.
-  intros c fs kbs sp t a Hs. simpl in Hs. destruct a as [| |e]; simpl in Hs; split_hyps.
+  intros c fs kbs sp t a. destruct a as [| |e].
   all: prep c.
-  all: run_helper; crunch.
+  all: run_helper; fin.
 Qed.
-Lemma st_version : forall c fs kbs n e, sclean (SVersionCheck n e) = true ->
+Lemma st_version : forall c fs kbs n e,
    to_opt (compile_impl c fs kbs (SVersionCheck n e)) = stmt_spec c fs kbs (SVersionCheck n e).
 Proof.
-  intros c fs kbs n e Hs. simpl in Hs.
+  intros c fs kbs n e.
   all: prep c.
-  all: run_helper; crunch.
+  all: run_helper; fin.
 Qed.
+Lemma st_reset : forall c fs kbs, to_opt (compile_impl c fs kbs SReset) = stmt_spec c fs kbs SReset.
+Proof. reflexivity. Qed.
 
 Lemma ext_mem_cases : forall m, is_ext_mem m = true -> In m ext_mem_tags.
 Proof.
@@ -445,10 +472,10 @@ Proof.
   repeat (destruct H1 as [H1|H1]; [subst; lia|]). contradiction.
 Qed.
 
-Lemma st_keystore : forall c fs kbs b o t, sclean (SKeystore b o t) = true ->
+Lemma st_keystore : forall c fs kbs b o t,
    to_opt (compile_impl c fs kbs (SKeystore b o t)) = stmt_spec c fs kbs (SKeystore b o t).
 Proof.
-  intros c fs kbs b o t Hs. simpl in Hs. destruct o as [|s|e]; try discriminate. destruct t as [e1|e1 e2]; simpl in Hs; split_hyps.
+  intros c fs kbs b o t. destruct o as [|s|e]; destruct t as [e1|e1 e2].
   all: prep c.
   all: destruct b; run_helper; crunch.
   all: boolfin.
@@ -456,28 +483,28 @@ Proof.
   all: try (exfalso; match goal with H : is_ext_mem ?v = true |- _ => pose proof (ext_mem_pos _ H); lia end).
 Qed.
 
-Lemma st_keywrap : forall c fs kbs id b a, sclean (SKeywrap id b a) = true ->
+Lemma st_keywrap : forall c fs kbs id b a,
    to_opt (compile_impl c fs kbs (SKeywrap id b a)) = stmt_spec c fs kbs (SKeywrap id b a).
 Proof.
-  intros c fs kbs id b a Hs. simpl in Hs. split_hyps.
+  intros c fs kbs id b a.
   prep c. run_helper. simpl.
   destruct (resolve_keyblob kbs v) as [k|k]; simpl; [|reflexivity].
   fin.
 Qed.
 
-Lemma st_fill : forall c fs kbs e t, sclean (SLoad MNone (LPattern e) t) = true ->
+Lemma st_fill : forall c fs kbs e t,
    to_opt (compile_impl c fs kbs (SLoad MNone (LPattern e) t)) = stmt_spec c fs kbs (SLoad MNone (LPattern e) t).
 Proof.
-  intros c fs kbs e t Hs. simpl in Hs. destruct t as [e1|e1 e2]; simpl in Hs; split_hyps.
+  intros c fs kbs e t. destruct t as [e1|e1 e2].
   all: prep c.
   all: run_helper; simpl.
   all: rewrite <- fill_word_spec; destruct (fill_word v) as [w|k]; fin.
 Qed.
 
-Lemma st_prog : forall c fs kbs o e t, sclean (SLoad o (LPattern e) t) = true -> o <> MNone ->
+Lemma st_prog : forall c fs kbs o e t, o <> MNone ->
    to_opt (compile_impl c fs kbs (SLoad o (LPattern e) t)) = stmt_spec c fs kbs (SLoad o (LPattern e) t).
 Proof.
-  intros c fs kbs o e t Hs Ho. simpl in Hs. destruct o as [|s|eo]; [congruence| |]; destruct t as [e1|e1 e2]; simpl in Hs; split_hyps.
+  intros c fs kbs o e t Ho. destruct o as [|s|eo]; [congruence| |]; destruct t as [e1|e1 e2].
   all: prep c.
   all: run_helper; simpl.
   all: try match goal with |- context [bytes_cnt ?p] => destruct (Z.ltb_spec 0 p); [rewrite (bytes_cnt_le4 p) by assumption|] end.
@@ -486,129 +513,173 @@ Proof.
          let X := fresh "X" in pose proof (bytes_cnt_le4 p H) as X; apply Z.leb_gt in H'; rewrite H' in X; symmetry in X; apply Z.ltb_ge in X; lia end.
 Qed.
 
-Lemma st_loadfile : forall c fs kbs o p t, sclean (SLoad o (LFile p) t) = true ->
+Lemma st_loadfile : forall c fs kbs o p t,
    to_opt (compile_impl c fs kbs (SLoad o (LFile p) t)) = stmt_spec c fs kbs (SLoad o (LFile p) t).
 Proof.
-  intros c fs kbs o p t Hs. simpl in Hs;
-  destruct o as [|s|eo]; destruct t as [e1|e1 e2]; simpl in Hs; split_hyps.
+  intros c fs kbs o p t. destruct o as [|s|eo]; destruct t as [e1|e1 e2].
   all: prep c.
   all: destruct p as [|p0 p']; simpl.
   all: run_helper; simpl; unfold load_binary.
   all: try (destruct (lookup_file (p0 :: p') fs) as [bytes|]); fin.
 Qed.
-Lemma st_loadsrc : forall c fs kbs o x t, sclean (SLoad o (LSource x) t) = true ->
+Lemma st_loadsrc : forall c fs kbs o x t,
    to_opt (compile_impl c fs kbs (SLoad o (LSource x) t)) = stmt_spec c fs kbs (SLoad o (LSource x) t).
 Proof.
-  intros c fs kbs o x t Hs. simpl in Hs;
-  destruct o as [|s|eo]; destruct t as [e1|e1 e2]; simpl in Hs; split_hyps.
+  intros c fs kbs o x t. destruct o as [|s|eo]; destruct t as [e1|e1 e2].
   all: prep c.
   all: destruct (lookup_src x (srcs c)) as [p|]; simpl; try reflexivity.
   all: try (destruct p as [|p0 p']; simpl).
   all: run_helper; simpl; unfold load_binary.
   all: try (destruct (lookup_file (p0 :: p') fs) as [bytes|]); fin.
 Qed.
+
+Lemma be_dec_nonneg : forall b, 0 <= Z.of_N (be_dec b).
+Proof. intros. apply N2Z.is_nonneg. Qed.
+
+Arguments h_prog : simpl never.
+Arguments cmd_prog : simpl never.
+Arguments spec_prog_blob : simpl never.
+
+Lemma cmd_prog_4 : forall addr w1 w2,
+  to_opt (cmd_prog addr 4 w1 w2) =
+  obind (guard (u32 addr && u32 w1 && u32 w2)) (fun _ => Some (mk 10 (Z.lor (b2z (negb (w2 =? 0))) 1024) addr w1 w2 PNone 4)).
+Proof.
+  intros. unfold cmd_prog, guard. simpl.
+  destruct (u32 addr), (u32 w1), (u32 w2); reflexivity.
+Qed.
+
+Lemma h_prog_blob : forall d addr m b0 b',
+  dget "address" d = Some (DInt addr) -> dget "load_opt" d = Some m -> get_mem_id m = Ok 4 ->
+  dget "values" d = Some (DBlob (b0 :: b')) ->
+  to_opt (h_prog d) = spec_prog_blob addr (b0 :: b').
+Proof.
+  intros d addr m b0 b' Ha Hm Hg Hv. unfold h_prog, spec_prog_blob. rewrite Ha, Hm, Hv. cbn [dint bind]. rewrite Hg.
+  cbn [bind truthy List.length Nat.eqb negb].
+  rewrite (bytes_cnt_le4' _ (be_dec_nonneg (b0 :: b'))), (bytes_cnt_le8 _ (be_dec_nonneg (b0 :: b'))), swap32_0.
+  generalize (Z.of_N (be_dec (b0 :: b'))). intros v. cbv zeta.
+  destruct (v <? 4294967296).
+  - rewrite cmd_prog_4. reflexivity.
+  - destruct (v <? 18446744073709551616); [rewrite cmd_prog_4|]; reflexivity.
+Qed.
+
+Ltac crunch_hprog :=
+  repeat (simpl; use_names;
+    match goal with
+    | |- context [match lookup_legacy ?s ?l with _ => _ end] => destruct (lookup_legacy s l) as [[?|]|] eqn:?
+    | |- context [if ?b then _ else _] => destruct b eqn:?; zsubst
+    end); simpl; try reflexivity; try discriminate.
+
+Lemma st_blob : forall c fs kbs o b t,
+   to_opt (compile_impl c fs kbs (SLoad o (LBlob b) t)) = stmt_spec c fs kbs (SLoad o (LBlob b) t).
+Proof.
+  intros c fs kbs o b t. destruct o as [|s|eo]; destruct t as [e1|e1 e2].
+  all: prep c.
+  all: destruct b as [|b0 b']; simpl.
+  all: unfold helper; simpl; unfold run_handler; simpl.
+  all: unfold h_load, dint, opt_mem_id, get_mem_id, cmd_load, guard, truthy; use_names; simpl.
+  all: crunch_hprog; try rewrite mem_flags_0; try reflexivity.
+  (* what is left: the fuse / ifr programming branch, h_prog still folded *)
+  all: try (erewrite h_prog_blob; [reflexivity | reflexivity | reflexivity | | reflexivity]).
+  all: try reflexivity.
+  all: try (unfold get_mem_id; match goal with H : lookup_legacy ?s legacy_mem = _ |- _ => rewrite H; reflexivity end).
+  all: boolfin.
+Qed.
+
 Ltac enc_fin :=
-  repeat (simpl;
+  repeat (simpl; use_names;
     match goal with
     | |- context [if ?b then _ else _] => destruct b eqn:?; zsubst
     end); simpl; try rewrite mem_flags_0; intros; try reflexivity; try discriminate; boolfin.
 
-Lemma st_encrypt_file : forall c fs kbs id o p t, sclean (SEncrypt id o (LFile p) t) = true ->
-   enc_at_start c kbs (SEncrypt id o (LFile p) t) = true ->
-   to_opt (compile_impl c fs kbs (SEncrypt id o (LFile p) t)) = stmt_spec c fs kbs (SEncrypt id o (LFile p) t).
+Lemma st_encrypt : forall c fs kbs id o d t,
+   to_opt (compile_impl c fs kbs (SEncrypt id o d t)) = stmt_spec c fs kbs (SEncrypt id o d t).
 Proof.
-  intros c fs kbs id o p t Hs He. simpl in Hs. unfold enc_at_start, spec_target in He. revert He.
-  destruct o as [|s|eo]; destruct t as [e1|e1 e2]; simpl in Hs; split_hyps.
+  intros c fs kbs id o d t. destruct d as [e|p|x|b]; destruct o as [|s|eo]; destruct t as [e1|e1 e2].
   all: prep c.
-  all: try (intros; reflexivity).
-  all: destruct p as [|p0 p']; simpl.
-  all: run_helper; simpl; unfold load_binary.
-  all: try (destruct (lookup_file (p0 :: p') fs) as [bytes|]); simpl; try (intros; reflexivity).
-  all: try (destruct (resolve_keyblob kbs v) as [k|k] eqn:Ek; simpl; try (intros; reflexivity)).
-  all: enc_fin.
-  all: simpl in He; rewrite Ek in He.
-  all: match type of He with (if ?b then _ else _) = true =>
-         replace b with true in He by (symmetry; apply andb_true_iff; split; apply negb_true_iff; apply Z.eqb_neq; assumption) end.
-  all: apply Z.eqb_eq in He; subst; reflexivity.
-Qed.
-Lemma st_encrypt_src : forall c fs kbs id o x t, sclean (SEncrypt id o (LSource x) t) = true ->
-   enc_at_start c kbs (SEncrypt id o (LSource x) t) = true ->
-   to_opt (compile_impl c fs kbs (SEncrypt id o (LSource x) t)) = stmt_spec c fs kbs (SEncrypt id o (LSource x) t).
-Proof.
-  intros c fs kbs id o x t Hs He. simpl in Hs. unfold enc_at_start, spec_target in He. revert He.
-  destruct o as [|s|eo]; destruct t as [e1|e1 e2]; simpl in Hs; split_hyps.
-  all: prep c.
-  all: try (intros; reflexivity).
-  all: destruct (lookup_src x (srcs c)) as [p|]; simpl; try (intros; reflexivity).
+  all: try (destruct (lookup_src x (srcs c)) as [p|]; simpl; try reflexivity).
   all: try (destruct p as [|p0 p']; simpl).
+  all: try (destruct b as [|b0 b']; simpl).
   all: run_helper; simpl; unfold load_binary.
-  all: try (destruct (lookup_file (p0 :: p') fs) as [bytes|]); simpl; try (intros; reflexivity).
-  all: try (destruct (resolve_keyblob kbs v) as [k|k] eqn:Ek; simpl; try (intros; reflexivity)).
+  all: try (destruct (lookup_file (p0 :: p') fs) as [bytes|]); simpl; try reflexivity.
+  all: try (destruct (resolve_keyblob kbs v) as [k|k] eqn:Ek; simpl; try reflexivity).
   all: enc_fin.
-  all: simpl in He; rewrite Ek in He.
-  all: match type of He with (if ?b then _ else _) = true =>
-         replace b with true in He by (symmetry; apply andb_true_iff; split; apply negb_true_iff; apply Z.eqb_neq; assumption) end.
-  all: apply Z.eqb_eq in He; subst; reflexivity.
 Qed.
 
-Theorem stmt_sem_except_known :
-  forall c fs kbs s, sclean s = true -> enc_at_start c kbs s = true ->
-    to_opt (compile_impl c fs kbs s) = stmt_spec c fs kbs s.
+Theorem stmt_sem :
+  forall c fs kbs s, to_opt (compile_impl c fs kbs s) = stmt_spec c fs kbs s.
 Proof.
-  intros c fs kbs s Hs He. destruct s as [o d t|o t|o| |o e|j t a|sp t a| |n e|b o t|id b a|id o d t].
+  intros c fs kbs s. destruct s as [o d t|o t|o| |o e|j t a|sp t a| |n e|b o t|id b a|id o d t].
   - destruct d as [e|p|x|b].
-    + destruct o as [|s|eo]; [apply st_fill; assumption | apply st_prog; [assumption|discriminate] | apply st_prog; [assumption|discriminate]].
-    + apply st_loadfile; assumption.
-    + apply st_loadsrc; assumption.
-    + simpl in Hs. discriminate.
-  - apply st_erase; assumption.
-  - apply st_erase_all; assumption.
+    + destruct o as [|s|eo]; [apply st_fill | apply st_prog; discriminate | apply st_prog; discriminate].
+    + apply st_loadfile.
+    + apply st_loadsrc.
+    + apply st_blob.
+  - apply st_erase.
+  - apply st_erase_all.
   - reflexivity.
-  - apply st_enable; assumption.
-  - destruct j; [apply st_jump; assumption | simpl in Hs; discriminate].
-  - apply st_jump_sp; assumption.
-  - simpl in Hs; discriminate.
-  - apply st_version; assumption.
-  - apply st_keystore; assumption.
-  - apply st_keywrap; assumption.
-  - destruct d as [e|p|x|b]; try (simpl in Hs; discriminate).
-    + apply st_encrypt_file; assumption.
-    + apply st_encrypt_src; assumption.
+  - apply st_enable.
+  - apply st_call.
+  - apply st_jump_sp.
+  - apply st_reset.
+  - apply st_version.
+  - apply st_keystore.
+  - apply st_keywrap.
+  - apply st_encrypt.
 Qed.
 
-(* whatever SPSDK accepts outside the finding classes is the specified command: never mis-translated *)
+(* whatever SPSDK accepts is the specified command: never mis-translated *)
 Theorem stmt_never_mistranslated :
-  forall c fs kbs s cmd, sclean s = true -> enc_at_start c kbs s = true ->
-    compile_impl c fs kbs s = Ok cmd -> stmt_spec c fs kbs s = Some cmd.
-Proof.
-  intros c fs kbs s cmd Hs He H. rewrite <- stmt_sem_except_known by assumption. rewrite H. reflexivity.
-Qed.
+  forall c fs kbs s cmd, compile_impl c fs kbs s = Ok cmd -> stmt_spec c fs kbs s = Some cmd.
+Proof. intros c fs kbs s cmd H. rewrite <- stmt_sem. rewrite H. reflexivity. Qed.
 
-(* non-vacuity: clean statements of every kind that compile to a command *)
-Example sclean_instances :
+(* statements of every kind that compile to a command, and the witnesses of the repaired defects *)
+Example stmt_instances :
   let c := {| vars := [(1%N, DInt 4096)]; srcs := [(2%N, [102%N])] |} in
   let fs := [([102%N], [1%N; 2%N; 3%N])] in
-  let kbs := [(0, [("start", DInt 134217728); ("end", DInt 134218751); ("key", DStr (repeat 48%N 32)); ("counter", DStr (repeat 48%N 16))])] in
-  forallb (fun s => sclean s && enc_at_start c kbs s && is_ok (compile_impl c fs kbs s))
-    [SLoad MNone (LPattern (EBin Add (EVar 1) (ELit 85))) (TRange (ELit 8192) (EBin Mul (ELit 3) (EVar 1)));
+  let kbs := [(0, [("start", DInt 134221824); ("end", DInt 134226943); ("key", DStr (repeat 48%N 32)); ("counter", DStr (repeat 48%N 16))])] in
+  forallb (fun s => is_ok (compile_impl c fs kbs s))
+    [SLoad MNone (LPattern (EBin Add (EVar 1) (ESize (ELit 4386) SzH))) (TRange (ELit 8192) (EBin Mul (ELit 3) (EVar 1)));
      SLoad (MName "fuse") (LPattern (ELit 1)) (TAddr (ELit 16777608));
+     SLoad (MName "fuse") (LBlob [136; 153; 170; 187; 204; 221; 238; 255]%N) (TAddr (ELit 16777608));
      SLoad (MName "sdcard") (LSource 2) (TAddr (ELit 134218120)); SLoad (MAt (ELit 288)) (LFile [102%N]) (TAddr (ELit 16));
+     SLoad MNone (LBlob [255; 46; 144; 7; 119; 95; 29; 32]%N) (TAddr (ELit 2684354560));
      SErase (MAt (ELit 288)) (TRange (ELit 134221824) (ELit 134247588)); SEraseAll (MAt (ELit 8)); SEraseUnsecureAll;
-     SEnable (MAt (ELit 9)) (ELit 1097728); SCall true (ELit 4294901760) (AArg (ELit 5)); SJumpSp (ELit 536874496) (ELit 4096) AEmpty;
+     SEnable (MAt (ELit 9)) (ELit 1097728); SCall true (ELit 4294901760) (AArg (ELit 5)); SCall false (ELit 256) (AArg (ELit 5));
+     SJumpSp (ELit 536874496) (ELit 4096) AEmpty; SReset;
      SVersionCheck true (ELit 2); SKeystore true (MAt (ELit 9)) (TAddr (ELit 134219776));
-     SKeywrap (ELit 0) (repeat 1%N 16) (ELit 134217728); SEncrypt (ELit 0) MNone (LSource 2) (TAddr (ELit 134217728))] = true.
-Proof. vm_compute. reflexivity. Qed.
+     SKeywrap (ELit 0) (repeat 1%N 16) (ELit 134217728); SEncrypt (ELit 0) MNone (LSource 2) (TAddr (ELit 134222848))] = true
+  /\ option_map c_payload (to_opt (compile_impl c fs kbs (SLoad MNone (LBlob [170; 187; 204; 221]%N) (TAddr (ELit 256)))))
+       = Some (PBytes [170; 187; 204; 221]%N)
+  /\ option_map (fun x => (c_count x, c_data x)) (to_opt (compile_impl c fs kbs (SLoad (MName "fuse") (LBlob [136; 153; 170; 187; 204; 221; 238; 255]%N) (TAddr (ELit 16777608)))))
+       = Some (3148519816, 4293844428)         (* 0xBBAA9988, 0xFFEEDDCC: as in legacy_real_example3.sb *)
+  /\ (exists k cc d, option_map c_payload (to_opt (compile_impl c fs kbs (SEncrypt (ELit 0) MNone (LSource 2) (TAddr (ELit 134222848)))))
+       = Some (PEnc k cc 134221824 134226943 false 134222848 134222848 d)).
+Proof. simpl. split; [vm_compute; reflexivity|]. split; [vm_compute; reflexivity|]. split; [vm_compute; reflexivity|].
+  eexists. eexists. eexists. vm_compute. reflexivity. Qed.
 
 (* ================================================================================================== *)
 (** * Unsupported constructs                                                                          *)
 (* ================================================================================================== *)
-Theorem unsupported_refused_except_known :
-  forall u, u <> U_section_options -> reduce_unsupported u = Err 1%N.
-Proof. intros u H. destruct u; try (vm_compute; reflexivity). congruence. Qed.
+Theorem unsupported_refused : forall u, unsupported_outcome u = Err 1%N.
+Proof. intros u. destruct u; vm_compute; reflexivity. Qed.
 
-(* docs/usage/elf2sb.md: "section_options is not supported and raises syntax error when used" -- it is accepted *)
-Theorem section_options_refuted : reduce_unsupported U_section_options = Ok tt.
-Proof. vm_compute. reflexivity. Qed.
+Lemma mapM_all_ok {A B} (f : A -> res B) : forall l r, mapM f l = Ok r -> forall a, In a l -> exists b, f a = Ok b.
+Proof.
+  induction l as [|x t IH]; simpl; intros r H a Ha; [contradiction|].
+  destruct (f x) as [b|k] eqn:E; simpl in H; [|discriminate].
+  destruct (mapM f t) as [bs|k] eqn:E2; simpl in H; [|discriminate].
+  destruct Ha as [Ha|Ha]; [subst; exists b; assumption | eapply IH; [reflexivity | assumption]].
+Qed.
+
+(* a configuration in which some section carries options is never turned into commands *)
+Theorem section_options_refused_by_load :
+  forall fs cf sec, In sec (cf_sections cf) -> cs_opts sec <> [] -> is_ok (load_config fs cf) = false.
+Proof.
+  intros fs cf sec Hin Hne. unfold load_config. destruct (cf_opts cf); [|reflexivity].
+  destruct (mapM _ (cf_sections cf)) as [r|k] eqn:E; [|reflexivity].
+  destruct (mapM_all_ok _ _ _ E sec Hin) as [b Hb]. destruct (cs_opts sec); [congruence|].
+  rewrite section_options_are_refused in Hb. discriminate.
+Qed.
 
 (* ================================================================================================== *)
 (** * Key blobs resolve to their definitions                                                          *)
@@ -667,22 +738,49 @@ Qed.
    statement dictionary of a section yields exactly one command, in order; and parsing keeps one dictionary per statement *)
 Theorem exactly_one_command :
   (forall fs cf l, load_config fs cf = Ok l ->
-     Forall2 (fun sec cmds => List.length cmds = List.length (snd sec)) (cf_sections cf) l) /\
+     Forall2 (fun sec cmds => List.length cmds = List.length (cs_cmds sec)) (cf_sections cf) l) /\
   (forall p cf, parse_program p = Ok cf ->
-     Forall2 (fun s sec => List.length (snd sec) = List.length (snd s)) (p_sections p) (cf_sections cf)).
+     Forall2 (fun s sec => List.length (cs_cmds sec) = List.length (sec_stmts s)) (p_sections p) (cf_sections cf)).
 Proof.
   split.
   - intros fs cf l H. unfold load_config in H. destruct (cf_opts cf); [|discriminate].
-    eapply mapM_Forall2; [|exact H]. intros sec cmds Hc. simpl in Hc. eapply mapM_length. exact Hc.
+    eapply mapM_Forall2; [|exact H]. intros sec cmds Hc. simpl in Hc.
+    destruct (cs_opts sec); [eapply mapM_length; exact Hc|].
+    destruct section_options_refused; [discriminate | eapply mapM_length; exact Hc].
   - intros p cf H. unfold parse_program in H.
     destruct (run_blocks (p_extern p) st0 (p_blocks p)) as [st|k]; simpl in H; [|discriminate].
     destruct (mapM _ (p_sections p)) as [secs|k] eqn:E; simpl in H; [|discriminate]. inversion H. simpl.
     eapply mapM_Forall2; [|exact E]. intros s sec Hs. unfold parse_section in Hs.
-    destruct (eval_impl _ (fst s)); simpl in Hs; [|discriminate].
-    destruct (mapM _ (snd s)) as [ds|k] eqn:E2; simpl in Hs; [|discriminate]. inversion Hs. simpl. eapply mapM_length. exact E2.
+    destruct (eval_impl _ (sec_id s)); simpl in Hs; [|discriminate].
+    destruct (mapM _ (sec_opts s)); simpl in Hs; [|discriminate].
+    destruct (mapM _ (sec_stmts s)) as [ds|k] eqn:E2; simpl in Hs; [|discriminate]. inversion Hs. simpl. eapply mapM_length. exact E2.
 Qed.
 
-Local Close Scope Z_scope.
+(* ================================================================================================== *)
+(** * Quoted literals end at the first closing quote                                                  *)
+(* ================================================================================================== *)
+Lemma scan_quoted_plain : forall q body rest acc, plain q body = true ->
+  scan_quoted q (body ++ q :: rest) acc = Some (rev acc ++ body, rest).
+Proof.
+  intros q body. induction body as [|c t IH]; simpl; intros rest acc H.
+  - rewrite N.eqb_refl, app_nil_r. reflexivity.
+  - apply andb_true_iff in H. destruct H as [Hc Ht]. apply andb_true_iff in Hc. destruct Hc as [H1 H2].
+    apply negb_true_iff in H1. apply negb_true_iff in H2. rewrite H1, H2.
+    rewrite IH by assumption. simpl. rewrite <- app_assoc. reflexivity.
+Qed.
+
+(* two quoted literals on one line are two literals: lexing `q body1 q mid q body2 q rest` yields body1 and leaves
+   `mid q body2 q rest`, from which (after mid) body2 is read the same way *)
+Theorem quoted_literals_separate :
+  forall q body1 mid body2 rest, plain q body1 = true -> plain q body2 = true ->
+    lex_quoted q (q :: body1 ++ q :: mid ++ q :: body2 ++ q :: rest) = Some (body1, mid ++ q :: body2 ++ q :: rest) /\
+    lex_quoted q (q :: body2 ++ q :: rest) = Some (body2, rest).
+Proof.
+  intros q body1 mid body2 rest H1 H2. unfold lex_quoted. rewrite N.eqb_refl. split.
+  - rewrite scan_quoted_plain by assumption. reflexivity.
+  - rewrite scan_quoted_plain by assumption. reflexivity.
+Qed.
+
 (* ================================================================================================== *)
 (** * The printer is inverted by the precedence parser                                                *)
 (* ================================================================================================== *)
